@@ -35,6 +35,9 @@ CONSTANTS MaxTop,      \* bound on the size of the range in bytes
           MaxNons,                        \* bound on the number of non-entry blocks
           WordCounts,                     \* numbers of word tokens a comment may have
           GenBlockTypes,                  \* entry types offered to the generator (a subset of BlockTypes)
+          GenNoteKinds,                   \* comment kinds offered to the generator (a subset of NoteKinds)
+          GenSubTypes,                    \* sub-block types offered to the generator (a subset of SubTypes)
+          Terse,                          \* TRUE: one text layout and the blank comment only (exhaustive sweeps)
           Rich,                           \* TRUE: the full statement universe; FALSE: two statements per type
           Phased                          \* TRUE: annotate only finished structures (used for generation)
 
@@ -44,12 +47,15 @@ vars == <<blocks, subs, notes, dirs, igs, nons, top, ntok, closed>>
 
 \* ---- statements -----------------------------------------------------------------------------
 P(n, b) == [n |-> n, b |-> b]
-Stmt(n, ops, b, parts) == [n |-> n, ops |-> ops, b |-> b, parts |-> parts]
+\* v: which instruction of that shape (the harness has a table of opcodes per shape)
+StmtV(n, ops, b, parts, v) == [n |-> n, ops |-> ops, b |-> b, parts |-> parts, v |-> v]
+Stmt(n, ops, b, parts) == StmtV(n, ops, b, parts, 0)
 Data(parts) == Stmt(parts[1].n + (IF Len(parts) > 1 THEN parts[2].n ELSE 0) + (IF Len(parts) > 2 THEN parts[3].n ELSE 0),
                     0, "", parts)
 \* instructions: byte length, number of numeric operands, base letters (one per operand, or one for both, or none)
 CodeStmts ==
-  {Stmt(1, 0, "", <<>>), Stmt(2, 0, "", <<>>)}
+  {StmtV(1, 0, "", <<>>, v) : v \in 0..5} \cup {StmtV(2, 0, "", <<>>, v) : v \in 0..3}     \* no numeric operand
+  \cup {Stmt(1, 1, b, <<>>) : b \in {"", "n", "b", "d", "h"}}               \* RST n
   \cup {Stmt(n, 1, b, <<>>) : n \in {2, 3, 4}, b \in {"", "n", "b", "c", "d", "h", "m"}}
   \cup {Stmt(4, 2, b, <<>>) : b \in {"", "b", "d", "h", "nb", "hc", "dm", "bh", "hd", "nn", "dn"}}
 \* DEFB: byte parts in any base, strings (c)
@@ -224,22 +230,35 @@ Finish == /\ ~closed /\ blocks # <<>> /\ blocks[Len(blocks)].ty # "i" /\ closed'
           /\ UNCHANGED <<blocks, subs, notes, dirs, igs, nons, top, ntok>>
 
 \* comment layouts offered to the generator: <<words, lines, dot form>> (a multi-line layout needs the dot form)
-Layouts == {<<nw, 1, 0>> : nw \in WordCounts} \cup {<<nw, 1, 1>> : nw \in WordCounts}
-           \cup {<<nw, nl, 1>> : nw \in WordCounts \ {1}, nl \in {2}} \cup {<<nw, 3, 1>> : nw \in WordCounts \ {1, 2}}
-ILayouts == {<<sh, ly>> : sh \in TextShapes, ly \in Layouts} \cup {<<sh, <<0, 1, 0>>>> : sh \in BlankShapes}
+Layouts == IF Terse THEN {<<nw, 1, 0>> : nw \in WordCounts}
+           ELSE {<<nw, 1, 0>> : nw \in WordCounts} \cup {<<nw, 1, 1>> : nw \in WordCounts}
+                \cup {<<nw, nl, 1>> : nw \in WordCounts \ {1}, nl \in {2}} \cup {<<nw, 3, 1>> : nw \in WordCounts \ {1, 2}}
+ILayouts == IF Terse THEN {<<"plain", ly>> : ly \in Layouts} \cup {<<"blank", <<0, 1, 0>>>>}
+            ELSE {<<sh, ly>> : sh \in TextShapes, ly \in Layouts} \cup {<<sh, <<0, 1, 0>>>> : sh \in BlankShapes}
+GenShapes == IF Terse THEN {"plain"} ELSE TextShapes
 SubEnds == {SubEnd(subs[j]) : j \in 1..Len(subs)}
 
 Build == \/ ("i" \in GenBlockTypes /\ \E s \in 1..3 : AddBlock("i", "I", s))
-         \/ \E bt \in GenBlockTypes \ {"i"} : \E st \in {DefaultSub(bt), "B", "C"} : \E s \in StmtsOf(st) : AddBlock(bt, st, s)
-         \/ \E st \in SubTypes : \E s \in StmtsOf(st) : AddSubBlock(st, s)
+         \/ \E bt \in GenBlockTypes \ {"i"} : \E st \in {DefaultSub(bt), "B", "C"} \cap GenSubTypes : \E s \in StmtsOf(st) : AddBlock(bt, st, s)
+         \/ \E st \in GenSubTypes : \E s \in StmtsOf(st) : AddSubBlock(st, s)
          \/ (subs # <<>> /\ \E s \in StmtsOf(subs[Len(subs)].ty) : SetLengths(s))
          \/ Finish
+\* (the address guards are stated first so that TLC enumerates layouts only for enabled addresses)
+CanComment(k, a) == /\ Len(notes) < MaxNotes
+                    /\ IF k = "N" THEN a \in SubStarts /\ ~StrictlyInsideM(a) /\ subs[SubAt(a)].ty # "I" ELSE a \in BlockStarts
+                    /\ (k = "title" => NotesAt("title", a) = {}) /\ (k \in {"D", "E"} => blocks[BlockOf(a)].ty # "i")
+                    /\ Cardinality(NotesAt(k, a)) < 3
+CanInstrComment(a) == Len(notes) < MaxNotes /\ subs[SubAt(a)].ty # "I" /\ NotesAt("I", a) = {} /\ ~InsideM(a)
+CanMultiLine(a, e) == /\ Len(notes) < MaxNotes /\ e > a /\ BlockOf(a) = BlockOf(e - 1) /\ subs[SubAt(a)].ty # "I"
+                      /\ \A x \in SubStarts : (a <= x /\ x < e) => NotesAt("I", x) = {} /\ ~InsideM(x)
+                      /\ \A x \in SubStarts : (a < x /\ x < e) => NotesAt("N", x) = {}
 Annotate ==
-         \/ \E k \in {"title", "D", "N", "E"}, a \in BlockStarts \cup SubStarts, ly \in Layouts, sh \in TextShapes :
-              AddComment(k, a, ly[1], ly[2], sh, ly[3])
-         \/ \E a \in BlockStarts, h \in RegHeads, nw \in WordCounts \cup {0} : AddRegister(a, h, nw)
-         \/ \E a \in SubStarts, il \in ILayouts : AddInstrComment(a, il[2][1], il[2][2], il[1], il[2][3])
-         \/ \E a \in SubStarts, e \in SubEnds, il \in ILayouts : AddMultiLine(a, e, il[2][1], il[2][2], il[1], il[2][3])
+         \/ \E k \in {"title", "D", "N", "E"} \cap GenNoteKinds, a \in BlockStarts \cup SubStarts :
+              CanComment(k, a) /\ \E ly \in Layouts, sh \in GenShapes : AddComment(k, a, ly[1], ly[2], sh, ly[3])
+         \/ ("R" \in GenNoteKinds /\ \E a \in BlockStarts, h \in RegHeads, nw \in WordCounts \cup {0} : AddRegister(a, h, nw))
+         \/ \E a \in SubStarts : "I" \in GenNoteKinds /\ CanInstrComment(a) /\ \E il \in ILayouts : AddInstrComment(a, il[2][1], il[2][2], il[1], il[2][3])
+         \/ \E a \in SubStarts, e \in SubEnds :
+              "M" \in GenNoteKinds /\ CanMultiLine(a, e) /\ \E il \in ILayouts : AddMultiLine(a, e, il[2][1], il[2][2], il[1], il[2][3])
          \/ \E a \in StmtStarts, k \in {"entry", "instr"} : AddDirective(a, k)
          \/ \E a \in StmtStarts \cup BlockStarts, t \in {"t", "d", "r", "m", "e", "i"}, sfx \in 0..2 : AddIgnore(a, t, sfx)
          \/ \E a \in BlockStarts, nl \in 1..2 : AddHeader(a, nl)
